@@ -837,7 +837,10 @@ func checkC11(e *worlds.Env, L *lbWorld, sample *lbSample) {
 						continue
 					}
 					pe := r.End.Peer().Snapshot()
-					if pe.CloseCalls > 0 && pe.ClosedStep <= ev.Step {
+					// (open throughout the call: a connection the proxy closed while the policy was still
+					// reading the counters may or may not have been counted any more - found by the thorough
+					// tier, seed 490241: selection and a finishing handler interleaved within one instant)
+					if pe.CloseCalls > 0 && pe.ClosedStep <= ev.EndStep {
 						continue
 					}
 					perPeer[r.Addr]++
